@@ -46,14 +46,14 @@ func loadKnownFindings(verifDir string) []KnownFinding {
 }
 
 type Evidence struct {
-	PropertyID string                 `json:"property_id"`
-	Tier       string                 `json:"tier"`
-	Seed       int                    `json:"seed"`
-	Level      string                 `json:"level"`
-	Coverage   map[string]interface{} `json:"coverage"`
-	Assumptions []string              `json:"assumptions"`
-	WallS      float64                `json:"wall_s"`
-	Violations int                    `json:"violations"`
+	PropertyID  string                 `json:"property_id"`
+	Tier        string                 `json:"tier"`
+	Seed        int                    `json:"seed"`
+	Level       string                 `json:"level"`
+	Coverage    map[string]interface{} `json:"coverage"`
+	Assumptions []string               `json:"assumptions"`
+	WallS       float64                `json:"wall_s"`
+	Violations  int                    `json:"violations"`
 }
 
 func verifDir() string {
@@ -290,20 +290,20 @@ func runCheck(repo, prop, tier string, opts SolveOpts) int {
 	ev := Evidence{PropertyID: prop, Tier: tier, Seed: seed, Level: "proof", Assumptions: assumptions, WallS: time.Since(t0).Seconds(), Violations: violations,
 		Coverage: map[string]interface{}{
 			"obligations": total, "discharged": discharged,
-			"checker_cmd":  fmt.Sprintf("bin/govc check --property %s --tier %s", prop, tier),
-			"trusted_base": trusted,
-			"samples":      samples,
-			"functions_under_contract": funcs,
-			"obligations_by_kind":      byKind,
-			"discharged_by_solver":     bySolver,
-			"solver_time_ms":           solverMs,
-			"loops_cut_with_invariants": loops,
-			"callees_with_contract":    keysOf(contracted),
-			"callees_inlined":          keysOf(inlined),
+			"checker_cmd":                       fmt.Sprintf("bin/govc check --property %s --tier %s", prop, tier),
+			"trusted_base":                      trusted,
+			"samples":                           samples,
+			"functions_under_contract":          funcs,
+			"obligations_by_kind":               byKind,
+			"discharged_by_solver":              bySolver,
+			"solver_time_ms":                    solverMs,
+			"loops_cut_with_invariants":         loops,
+			"callees_with_contract":             keysOf(contracted),
+			"callees_inlined":                   keysOf(inlined),
 			"callees_without_contract_havocked": keysOf(uncontracted),
-			"unmodelled":               unmodelled,
-			"known_findings_printed":   knownPrinted,
-			"explanation": "every obligation is generated from the go/ssa form of /repo's current working tree (tag verif) and discharged by an SMT solver; see DESIGN.md",
+			"unmodelled":                        unmodelled,
+			"known_findings_printed":            knownPrinted,
+			"explanation":                       "every obligation is generated from the go/ssa form of /repo's current working tree (tag verif) and discharged by an SMT solver; see DESIGN.md",
 		}}
 	addBounded(eng, prop, tier, &ev, &exit, vdir)
 	b, _ := json.MarshalIndent(ev, "", " ")
